@@ -334,6 +334,10 @@ def gen_proc_cases(rng, count: int):
                 c = conflicting_file(rng, j, langs[j], per[j])
                 if c is not None:
                     more.insert(rng.randrange(len(more) + 1), c)
+            if rng.random() < 0.5:    # a later step of the same builder that edits the section of ANOTHER language than the context's target
+                other = rng.choice([x for x in LANGS if x != langs[j]])
+                more.insert(rng.randrange(len(more) + 1),
+                            [rng.choice(['file', 'upd']), j, N([('nunavut.lang.' + other, N([('zz_later', gen_val(rng, 1, 0.0)), ('options', N([('zz_opt', L(rng.randrange(9)))]))]))])])
             per[j] += more + [['create', j]]
         # interleave the builders' op lists, keeping each builder's own order; `new` must come in index order
         ops = [['new'] for _ in range(nb)]
@@ -371,11 +375,23 @@ def permute_single_builder(rng, ops):
     return out + [['create', 0]]
 
 
-def gen_cli_cases(rng, count: int):
+def gen_cli_cases(rng, count: int, groups: typing.Optional[dict] = None):
+    groups = groups or {}
     cases = []
     for te_cli in ('any', 'big'):       # an explicit command-line value against a conflicting file value
         cases.append({'kind': 'cli', 'argv': ['--target-language', 'c', '--experimental-languages', '--target-endianness', te_cli], 'lang': 'c',
                       'files': [N([('nunavut.lang.c', N([('options', N([('target_endianness', L('little'))]))]))])]})
+    # systematic family: every shorthand x every key of its group, spelled out in a file with the group's own value and with another
+    for sel in sorted(groups):
+        if not isinstance(groups[sel], dict):
+            continue
+        for k in sorted(groups[sel]):
+            same = groups[sel][k][2]
+            same = same[1] if isinstance(same, tuple) else same
+            for val in (same, 'zz_other' if isinstance(same, str) else not same):
+                cases.append({'kind': 'cli', 'argv': ['--target-language', 'cpp', '--experimental-languages', '-std', sel], 'lang': 'cpp',
+                              'files': [N([('nunavut.lang.cpp', N([('options', N([(k, L(val))]))]))])]})
+    count += len(cases)
     while len(cases) < count:
         lang = rng.choice(LANGS)
         argv = ['--target-language', lang] if rng.random() < 0.9 else []
@@ -397,6 +413,14 @@ def gen_cli_cases(rng, count: int):
         files = [gen_section_doc(rng, lang, True) for _ in range(rng.randrange(0, 4))]
         if '--target-endianness' in argv and rng.random() < 0.7:   # make the files disagree with the command line
             files.append(N([('nunavut.lang.' + lang, N([('options', N([('target_endianness', L(rng.choice(['any', 'big', 'little'])))]))]))]))
+        sel = argv[argv.index('-std') + 1] if '-std' in argv else None
+        if isinstance(groups.get(sel), dict) and rng.random() < 0.6:
+            # a file that spells out part of what the selected shorthand implies: one key of its group, with the group's own value or another
+            k = rng.choice(sorted(groups[sel]))
+            same = groups[sel][k][2]
+            same = same[1] if isinstance(same, tuple) else same
+            val = same if rng.random() < 0.6 else ('zz_other' if isinstance(same, str) else not same)
+            files.insert(rng.randrange(len(files) + 1), N([('nunavut.lang.cpp', N([('options', N([(k, L(val))]))]))]))
         cases.append({'kind': 'cli', 'argv': argv, 'files': files, 'lang': lang})
     return cases
 
@@ -706,7 +730,7 @@ def main(chk: core.Check, replay: typing.Optional[str] = None) -> int:
     else:
         merge_cases = gen_merge_cases(rng, n_merge)
         proc_cases = gen_proc_cases(rng, n_proc)
-        cli_cases = gen_cli_cases(rng, n_cli)
+        cli_cases = None      # generated once the built-in configuration (shorthand groups) is known
 
     # 1. proof obligations against the regenerated translation
     res = core.coq_check('C13', ['c13'])
@@ -729,6 +753,9 @@ def main(chk: core.Check, replay: typing.Optional[str] = None) -> int:
         return chk.finish()
     builtin_v = builtin['sections']
     builtin_c = canon(builtin_v)
+    if cli_cases is None:
+        grp = builtin_c.get('nunavut.lang.cpp', {}).get('defaults', {})
+        cli_cases = gen_cli_cases(rng, n_cli, grp if isinstance(grp, dict) else {})
 
     perm_cases = []
     for c in proc_cases:
